@@ -17,6 +17,7 @@ import (
 	"path/filepath"
 	"strings"
 	"testing"
+	"unicode/utf8"
 
 	"Havoc/pkg/agent"
 	"Havoc/pkg/common/parser"
@@ -35,11 +36,28 @@ type OpA struct {
 	Ag     int    `json:"ag"`
 	FID    uint32 `json:"fid,omitempty"`
 	Name   string `json:"name,omitempty"`
+	NameB  []byte `json:"name_b,omitempty"` // the name when it is not valid UTF-8 (JSON strings cannot carry it)
 	Size   uint64 `json:"size,omitempty"`
 	Data   []byte `json:"data,omitempty"`
 	Reason uint32 `json:"reason,omitempty"` // fs close: 0 finished, 1 removed
 	Found  bool   `json:"found,omitempty"`  // xfer: the Demon's "Found" flag
 	Text   string `json:"text,omitempty"`
+}
+
+// name returns the file name of an open step.
+func (o OpA) name() string {
+	if len(o.NameB) > 0 {
+		return string(o.NameB)
+	}
+	return o.Name
+}
+
+func (o *OpA) setName(n string) {
+	if utf8.ValidString(n) {
+		o.Name, o.NameB = n, nil
+	} else {
+		o.Name, o.NameB = "", []byte(n)
+	}
 }
 
 type CaseA struct {
@@ -136,13 +154,13 @@ func genA(t *rapid.T) CaseA {
 		switch op.K {
 		case "open":
 			if calm {
-				op.Name = genPlainName(t)
+				op.setName(genPlainName(t))
 			} else {
-				op.Name = genName(t, own, other)
+				op.setName(genName(t, own, other))
 			}
 			op.Size = uint64(rapid.IntRange(0, 1000).Draw(t, "size"))
 			const dl = "/L/agents/ID/Download"
-			if tgt, _ := dlTarget(dl, effName(op.Via, op.Name)); inside(dl, tgt) {
+			if tgt, _ := dlTarget(dl, effName(op.Via, op.name())); inside(dl, tgt) {
 				simOpen[xkey{op.Ag, op.FID}] = true
 			}
 		case "write":
@@ -176,7 +194,9 @@ func genPlainName(t *rapid.T) string {
 // UTF-16 string whose leading/trailing NUL units the reader strips (terminator removal).
 func effName(via, name string) string {
 	if via == "fs" {
-		return strings.Trim(name, "\x00")
+		// bytes that are not UTF-8 have no UTF-16 spelling: each becomes U+FFFD (as does a lone surrogate a
+		// hostile agent could send instead)
+		return strings.Trim(string([]rune(name)), "\x00")
 	}
 	return name
 }
@@ -273,11 +293,14 @@ func checkA(c CaseA) *core.Violation {
 
 		switch op.K {
 		case "open":
-			name := effName(op.Via, op.Name)
+			name := effName(op.Via, op.name())
 			desc += fmt.Sprintf(" name %q", name)
-			if countUps(name) > maxUps {
+			if countUps(name) > maxUps || hostileUps(name) > maxUps {
 				continue // could leave the observed tree
 			}
+			// a decorated name (NULs, zero-width characters, trailing dots, escapes …) may be stored under any
+			// spelling - inside the Download folder
+			loose := decorated(name)
 			if _, dup := open[key]; dup {
 				continue // precondition: file ids of simultaneous transfers differ
 			}
@@ -285,29 +308,30 @@ func checkA(c CaseA) *core.Violation {
 			contained := inside(dl, target)
 			noop := op.Via == "bof" && len(name) == 0 // CALLBACK_FILE needs a non-empty name
 			clash := false
+			altTarget, _ := dlTarget(dl, normaliseHostile(name))
 			for k, x := range open {
-				if k.ag == ai && x.target == target {
+				if k.ag == ai && (x.target == target || loose && x.target == altTarget) {
 					clash = true
 				}
 			}
 			if clash {
 				continue // precondition: simultaneous transfers have distinct target names
 			}
-			must := contained && !noop && plainComponents(comps) && len(target) < 3000 && fsAllowsCreate(dl, comps)
+			must := contained && !noop && !loose && plainComponents(comps) && len(target) < 3000 && fsAllowsCreate(dl, comps)
 
 			switch op.Via {
 			case "fs":
 				e := &demonref.Enc{}
-				e.Int32(2).Int32(0).Int32(op.FID).Int64(op.Size).WString(op.Name)
+				e.Int32(2).Int32(0).Int32(op.FID).Int64(op.Size).WString(op.name())
 				dispatch(a, agent.COMMAND_FS, e.B)
 			case "bof":
 				blob := append(be32(op.FID), be32(uint32(op.Size))...)
-				blob = append(blob, []byte(op.Name)...)
+				blob = append(blob, []byte(op.name())...)
 				e := &demonref.Enc{}
 				e.Int32(agent.CALLBACK_FILE).Bytes(blob)
 				dispatch(a, agent.BEACON_OUTPUT, e.B)
 			default:
-				a.DownloadAdd(int(op.FID), op.Name, int64(op.Size))
+				a.DownloadAdd(int(op.FID), op.name(), int64(op.Size))
 			}
 			opened := a.DownloadGet(int(op.FID)) != nil
 			p := permit{writer: "DownloadAdd", region: dl, dirsExact: []string{w.agentDir(id), dl}, dirsUnder: []string{dl},
@@ -315,8 +339,24 @@ func checkA(c CaseA) *core.Violation {
 			if contained && opened {
 				p.allowFile(target, mustEqual(nil))
 			}
+			if loose && opened {
+				p.looseUnder, p.looseOK = dl, func(cur []byte) string { return mustEqual(nil)(nil, false, cur) }
+			}
 			if v := w.judge(i, desc, p); v != nil {
 				return v
+			}
+			if loose && opened {
+				// which spelling was used?  the modelled one if it is there, else the file that appeared inside the
+				// Download folder, else (an existing empty file was re-created) what the transfer itself says
+				if b, ok := w.snap.files[target]; !(contained && ok && len(b) == 0) {
+					actual := w.lastLoose
+					if actual == "" {
+						if d := a.DownloadGet(int(op.FID)); d != nil {
+							actual = filepath.Clean(d.LocalFile)
+						}
+					}
+					target, contained = actual, inside(dl, actual)
+				}
 			}
 			if opened && !contained {
 				return core.V("DownloadAdd|file-outside|"+where(dl, target),
@@ -488,6 +528,7 @@ func classifyA(c CaseA) core.Class {
 	interleaved, stray := false, false
 	stopped := map[xkey]bool{}
 	xferOnOpen, writeAfterStop := false, false
+	disguised := false
 	maxOpen := 0
 	na := len(c.Agents)
 	if na == 0 {
@@ -501,13 +542,14 @@ func classifyA(c CaseA) core.Class {
 		case "open":
 			vias[op.Via] = true
 			cl.Labels = append(cl.Labels, "via:"+op.Via)
-			nc := classifyName(op.Name)
+			nc := classifyName(op.name())
 			cl.Labels = append(cl.Labels, nc.labels("name:")...)
 			anyName.dotdot = anyName.dotdot || nc.dotdot
 			anyName.mixed = anyName.mixed || nc.mixed || nc.doubled
 			anyName.prefixSib = anyName.prefixSib || nc.prefixSib
+			disguised = disguised || nc.disguised()
 			const dl = "/L/agents/ID/Download"
-			tgt, _ := dlTarget(dl, effName(op.Via, op.Name))
+			tgt, _ := dlTarget(dl, effName(op.Via, op.name()))
 			switch {
 			case inside(dl, tgt):
 				cl.Labels = append(cl.Labels, "open:target-inside")
@@ -570,15 +612,15 @@ func classifyA(c CaseA) core.Class {
 	if maxOpen > 3 {
 		maxOpen = 3
 	}
-	cl.NonTrivial = anyName.dotdot || anyName.mixed || anyName.prefixSib || interleaved || writeAfterStop
-	cl.Fingerprint = fmt.Sprintf("ag=%d|dd=%v|mix=%v|sib=%v|open=%d|il=%v|vias=%d|stray=%v|xfer=%v|was=%v", len(c.Agents), anyName.dotdot, anyName.mixed, anyName.prefixSib, maxOpen, interleaved, len(vias), stray, xferOnOpen, writeAfterStop)
+	cl.NonTrivial = anyName.dotdot || anyName.mixed || anyName.prefixSib || interleaved || writeAfterStop || disguised
+	cl.Fingerprint = fmt.Sprintf("ag=%d|dd=%v|mix=%v|sib=%v|open=%d|il=%v|stray=%v|xfer=%v|was=%v", len(c.Agents), anyName.dotdot, anyName.mixed, anyName.prefixSib, maxOpen, interleaved, stray, xferOnOpen, writeAfterStop) + fmt.Sprintf("|dis=%v", disguised)
 	return cl
 }
 
 func TestC07a(t *testing.T) {
 	core.Run(t, core.Spec[CaseA]{
 		Property: "C07", Sub: "a",
-		Rule: "1-2 Demon agents, 1-4 file ids, 1-24 steps of open/write/close (also for unknown and closed ids)/screenshot/console-log/transfer-control acknowledgement (COMMAND_TRANSFER list, stop, resume, remove and the remove follow-up package, Found true/false, for open, unknown and closed file ids of either agent), each delivered via the real TaskDispatch as COMMAND_FS download callbacks, as BEACON_OUTPUT CALLBACK_FILE* callbacks (reference-encoded as the Demon does) or by calling DownloadAdd/Write/Close; names from a path grammar (.., ., empty, Download/Downloads/Download_x/Down, Screenshots*, own and foreign agent ids, 300-char, NUL, C:, UNC; separators / \\ // \\\\ /\\ \\/, leading/trailing). Oracle after every step: recursive listing (with contents) of a root four levels above the loot root; every created/changed file is the step's own target inside agents/<id>/Download (resp. Screenshots/Desktop_*.png, Console_<id>.log), every created directory is agents/<id>, its Download/Screenshots folder or inside the Download folder; each download file equals the concatenation of the chunks of the transfer that created it; stray writes/closes change nothing; a transfer-control acknowledgement changes nothing on disk and does not end the transfer (chunks that follow a stop/resume/remove acknowledgement are appended as before); plain names must be accepted. Non-trivial: a name with .., mixed/doubled separators or a prefix-sharing sibling, or a write while >=2 transfers of the agent are open, or a chunk after a stop/remove acknowledgement; distinct = (#agents, dotdot, sepmix, sibling, max open, interleaved, #vias, stray, ack on open transfer, write after stop)",
+		Rule: "1-2 Demon agents, 1-4 file ids, 1-24 steps of open/write/close (also for unknown and closed ids)/screenshot/console-log/transfer-control acknowledgement (COMMAND_TRANSFER list, stop, resume, remove and the remove follow-up package, Found true/false, for open, unknown and closed file ids of either agent), each delivered via the real TaskDispatch as COMMAND_FS download callbacks, as BEACON_OUTPUT CALLBACK_FILE* callbacks (reference-encoded as the Demon does) or by calling DownloadAdd/Write/Close; names from a path grammar (.., ., empty, Download/Downloads/Download_x/Down, Screenshots*, own and foreign agent ids, 300-char, NUL, C:, UNC; separators / \\ // \\\\ /\\ \\/, leading/trailing); half of the names are then DECORATED: removable / normalisable characters at generated positions inside components (NUL and NUL runs as in '.\\x00.' '..\\x00' '\\x00..', U+200B, U+FEFF, soft hyphen, tab, space, trailing dot / space, %2e %2f %5c escapes, overlong and invalid UTF-8 bytes; names that are not UTF-8 travel as bytes). For a decorated name any ONE new file inside the agent's Download folder is accepted as its target (the oracle is the tree walk, not an interpretation of the name). Oracle after every step: recursive listing (with contents) of a root four levels above the loot root; every created/changed file is the step's own target inside agents/<id>/Download (resp. Screenshots/Desktop_*.png, Console_<id>.log), every created directory is agents/<id>, its Download/Screenshots folder or inside the Download folder; each download file equals the concatenation of the chunks of the transfer that created it; stray writes/closes change nothing; a transfer-control acknowledgement changes nothing on disk and does not end the transfer (chunks that follow a stop/resume/remove acknowledgement are appended as before); plain names must be accepted. Non-trivial: a name with .., mixed/doubled separators or a prefix-sharing sibling, or a write while >=2 transfers of the agent are open, or a chunk after a stop/remove acknowledgement, or a decorated component that a normalisation would turn into '..'; distinct = (#agents, dotdot, sepmix, sibling, max open, interleaved, stray, ack on open transfer, write after stop, disguised dot-dot)",
 		Gen:  genA, Check: checkA, Classify: classifyA,
 		Assumptions: []string{
 			"file ids and target files of simultaneously open transfers of one agent differ (steps violating this are skipped)",
